@@ -668,9 +668,14 @@ Definition cleanupSemantic_pre (cc : charcls) (d : list seg) : result (list seg)
 Definition cleanupSemantic_overlap (d : list seg) : result (list seg) :=
   loop (S (length d)) sem2_step (d, 1).
 
+Definition is_empty_seg (s : seg) : bool := match snd s with [] => true | _ => false end.
+
 Definition diff_cleanupSemantic (cc : charcls) (d : list seg) : result (list seg) :=
   d <- cleanupSemantic_pre cc d ;;
-  cleanupSemantic_overlap d.
+  d <- cleanupSemantic_overlap d ;;
+  (* "Drop such empty edits": if any(not text ...): diffs[:] = [d for d in diffs if d[1]]; diff_cleanupMerge(diffs) *)
+  if existsb is_empty_seg d then cleanupMerge (filter (fun s => negb (is_empty_seg s)) d)
+  else Ok d.
 
 (* ------------------------------------------------------------------ *)
 (** * diff_linesToChars, diff_charsToLines *)
@@ -935,3 +940,28 @@ Definition join_delete_insert (d : list seg) : result (list jseg) :=
        | None => Err IndexError             (* diffs[-1] of an empty list *)
        | Some (o, t) => Ok (l ++ [JS o t])
        end.
+
+(* ------------------------------------------------------------------ *)
+(** * Specification vocabulary (used by the statements in Properties/C16.v) *)
+
+(* the old text: equal + delete segments; the new text: equal + insert segments *)
+Definition t1 (d : list seg) : str := concat (map snd (filter (fun s => negb (is_insert (fst s))) d)).
+Definition t2 (d : list seg) : str := concat (map snd (filter (fun s => negb (is_delete (fst s))) d)).
+
+(* the same for the output of _join_delete_insert: REPLACE(new, old) is old on the t1 side, new on the t2 side *)
+Definition jt1 (j : list jseg) : str :=
+  concat (map (fun x => match x with JS o t => if is_insert o then [] else t | JR new old => old end) j).
+Definition jt2 (j : list jseg) : str :=
+  concat (map (fun x => match x with JS o t => if is_delete o then [] else t | JR new old => new end) j).
+
+(* a text without its CLOSE placeholders / without its OPEN and CLOSE placeholders *)
+Definition is_close (cls : cls_t) (c : N) : bool :=
+  match cls c with Some (T_CLOSE, _) => true | _ => false end.
+Definition is_open (cls : cls_t) (c : N) : bool :=
+  match cls c with Some (T_OPEN, _) => true | _ => false end.
+Definition erase_close (cls : cls_t) (s : str) : str := filter (fun c => negb (is_close cls c)) s.
+Definition erase_oc (cls : cls_t) (s : str) : str := filter (fun c => negb (is_open cls c || is_close cls c)) s.
+
+(* what PlaceholderMaker.get_placeholder guarantees: the close_ph of an OPEN entry is a CLOSE entry *)
+Definition wf_cls (cls : cls_t) : Prop :=
+  forall c cl, cls c = Some (T_OPEN, Some cl) -> is_close cls cl = true.
